@@ -406,6 +406,7 @@ def _stage(rep: Report, prop: str, name: str, st: dict, work: Path, totals: dict
         stage=name, cases_emitted=total, cases_replayed=len(cases), by_front=fronts, timestamps_per_case=len(envs),
         traces_validated=done, val_states=vst["states"], exercised=acc))
     byid = None
+    n_dev = 0
     for v in fails:
         cl = v["clause"]
         if not (cl.startswith(prop + ".") or cl.startswith("BIND.") or cl.startswith("DIS.")):
@@ -417,6 +418,9 @@ def _stage(rep: Report, prop: str, name: str, st: dict, work: Path, totals: dict
                 for r_ in load_ndjson(p):
                     byid[r_["id"]] = r_
         info = dict(stage=name, constants=shown, case=_brief(byid.get(v["tid"]), v["l"]))
+        if v.get("deviations") and n_dev >= 200:  # (known deviations come by the hundred thousand: keep few in full)
+            info = dict(stage=name, case=dict(id=v["tid"], toks=info["case"]["toks"] if info["case"] else None))
+        n_dev += 1 if v.get("deviations") else 0
         if cl.startswith("DIS."):
             dis = rep.extra.setdefault("disagreements", dict(count=0, examples=[]))
             dis["count"] += 1
